@@ -29,7 +29,7 @@ def tokenize(lines):
         ("FLOAT", r"\-?\d+(?:\.\d+(?:e[+-]?\d+)?|e[+-]?\d+)|\-inf\b"),
         ("INT", r"\-?\d+"),
         ("STRING", r"'[^']*'"),
-        ("ID", r"[A-Za-z][A-Za-z\d_]*"),
+        ("ID", r"[A-Za-z_][A-Za-z\d_]*"),
         ("SKIP", r"\s+"),
         (
             "OTHER",
